@@ -41,6 +41,20 @@ def havoc_value(E, v, name, st, typ=None):
         h.kind = 'acc'
         h.items = [cnt, E.fresh_bytes(name + '_last'), E.fresh_bytes(name + '_joined')]
         return v
+    if isinstance(typ, str) and typ.startswith('alist'):
+        # counted-list abstraction: the list object is turned IN PLACE into (count) -- exact for append and len, everything else
+        # Unsupported.  What is known about the ELEMENTS is stated per append: options['on_append'][<hook>] = [clauses over `item`
+        # and the state at the append], each an obligation at every append (typ = 'alist:<hook>').
+        if not (isinstance(v, Ref) and st.heap[v.oid].kind in ('list', 'alist')):
+            raise Unsupported('alist abstraction of %s: not a list' % name)
+        h = st.heap[v.oid]
+        old_n = len(h.items) if h.kind == 'list' else zint(h.items[0])
+        cnt = E.fresh_int(name + '_count')
+        st.assume(cnt.t >= old_n)
+        h.kind = 'alist'
+        h.items = [cnt]
+        h.fields = {'__hook__': typ.split(':', 1)[1] if ':' in typ else ''}
+        return v
     if typ is not None:
         from .contracts import fresh_typed
         return fresh_typed(E, st, typ, name)
@@ -65,7 +79,31 @@ def run_while(E, n, st):
     spec = E.loop_spec(st, n)
     if spec is None:
         return _unroll_while(E, n, st)
-    return _cut_loop(E, n, st, spec, kind='while')
+    # `peel: k` executes the first k iterations explicitly (while c: B == if c: B; while c: B) and cuts the rest by the
+    # invariant: for loops whose first iteration differs in kind (e.g. a sentinel int later replaced by an object)
+    outs = []
+    states = [st]
+    for _ in range(int(spec.get('peel', 0) or 0)):
+        nxt = []
+        for s0 in states:
+            sink = []
+            for s1, c in E.ev(n.test, s0, sink):
+                a, b = E.split(s1, E.truth(c, s1), label='peel@%d' % n.lineno)
+                if b is not None:
+                    outs.append(('fall', b))
+                if a is not None:
+                    for o in E.run_block(n.body, a):
+                        if o[0] in ('fall', 'cont'):
+                            nxt.append(o[1])
+                        elif o[0] == 'break':
+                            outs.append(('fall', o[1]))
+                        else:
+                            outs.append(o)
+            outs.extend(sink)
+        states = nxt
+    for s0 in states:
+        outs.extend(_cut_loop(E, n, s0, spec, kind='while'))
+    return outs
 
 
 def _unroll_while(E, n, st):
@@ -93,9 +131,9 @@ def _unroll_while(E, n, st):
 
 
 def run_for(E, n, st):
-    if n.orelse:
-        raise Unsupported('for-else')
     spec = E.loop_spec(st, n)
+    if n.orelse and spec is not None:
+        raise Unsupported('for-else on a loop cut by an invariant')
     sink = []
     outs = []
     for s1, itv in E.ev(n.iter, st, sink):
@@ -111,6 +149,8 @@ def run_for(E, n, st):
         if items is not None:
             outs.extend(_unroll_for(E, n, s1, items, sink))
             continue
+        if n.orelse:
+            raise Unsupported('for-else over a symbolic iterable')
         if spec is None:
             raise Unsupported('for loop at line %d over a symbolic iterable needs an invariant' % n.lineno)
         outs.extend(_cut_loop(E, n, s1, spec, kind='for', iterable=itv))
@@ -143,6 +183,11 @@ def _unroll_for(E, n, st, items, sink):
         sts = nxt
         if len(sts) > 512:
             raise Unsupported('path explosion while unrolling loop at line %d' % n.lineno)
+    if n.orelse:
+        # for ... else: the else suite runs on the paths that exhausted the iterable, not on those that left through `break`
+        for s in sts:
+            outs.extend(E.run_block(n.orelse, s))
+        return outs
     outs.extend(('fall', s) for s in sts)
     return outs
 
@@ -164,10 +209,15 @@ def _cut_loop(E, n, st, spec, kind, iterable=None):
     if kind == 'for':
         if isinstance(iterable, SRange):
             lo, hi, stp = zint(iterable.lo), zint(iterable.hi), iterable.step
-            if stp != 1:
+            if not isinstance(stp, int) or stp < 1:
                 raise Unsupported('symbolic range with step in invariant loop')
-            length = z3.If(hi > lo, hi - lo, 0)
-            item = lambda k: mk_int(lo + k)
+            if stp == 1:
+                length = z3.If(hi > lo, hi - lo, 0)
+                item = lambda k: mk_int(lo + k)
+            else:
+                # range(lo, hi, step), constant step > 1: ceil((hi - lo) / step) items, the k-th is lo + k*step
+                length = z3.If(hi > lo, (hi - lo + (stp - 1)) / stp, 0)
+                item = lambda k: mk_int(lo + k * stp)
         elif isinstance(iterable, range):
             lo, hi = iterable.start, iterable.stop
             if iterable.step != 1:
@@ -206,7 +256,7 @@ def _cut_loop(E, n, st, spec, kind, iterable=None):
         if '.' in h:
             base, fld = h.rsplit('.', 1)
             sink = []
-            r = list(E.ev(ast.parse(base, mode='eval').body, st, sink))
+            r = _ev_spec(E, st, base, sink)
             if len(r) != 1:
                 raise Unsupported('havoc target ' + h)
             ref = r[0][1]
@@ -289,6 +339,16 @@ def _cut_loop(E, n, st, spec, kind, iterable=None):
     return outs
 
 
+def _ev_spec(E, st, base, sink):
+    """the object a havoc path starts from: a spec expression over the current state (spec forms allowed)"""
+    saved = st.frame.spec_mode
+    st.frame.spec_mode = True
+    try:
+        return list(E.ev(ast.parse(base, mode='eval').body, st, sink))
+    finally:
+        st.frame.spec_mode = saved
+
+
 def _as_z3(g):
     if isinstance(g, bool):
         return z3.BoolVal(g)
@@ -326,10 +386,13 @@ def _check_unhavocked_writes(E, st, start, written_fields, explicit, where, oid_
         if '.' in h:
             base, fld = h.rsplit('.', 1)
             sink = []
-            r = list(E.ev(ast.parse(base, mode='eval').body, st, sink))
+            r = _ev_spec(E, st, base, sink)
             if len(r) == 1 and isinstance(r[0][1], Ref):
                 allowed.add((r[0][1].oid, fld))
-        elif isinstance(env.get(h), Ref) and st.heap[env[h].oid].kind == 'acc':
+                tgt = st.heap[r[0][1].oid].fields.get(fld)
+                if isinstance(tgt, Ref) and tgt.oid in st.heap and st.heap[tgt.oid].kind in ('acc', 'alist'):
+                    allowed.add((tgt.oid, '<items>'))       # the list behind the havocked field was abstracted before the cut
+        elif isinstance(env.get(h), Ref) and st.heap[env[h].oid].kind in ('acc', 'alist'):
             allowed.add((env[h].oid, '<items>'))       # havocked as an accumulator before the invariant was assumed
     for (oid, fld) in st.writes[start:]:
         if (oid, fld) not in allowed and oid < oid_floor:
